@@ -41,6 +41,7 @@ type readEv struct {
 type writeEv struct {
 	accept int
 	err    bool
+	block  bool // the peer is not reading: Write blocks until the connection is closed
 }
 
 type timeoutErr struct{}
@@ -196,6 +197,12 @@ func (c *scriptConn) Write(p []byte) (int, error) {
 		ev = c.writes[c.wi]
 		c.wi++
 	}
+	if ev.block {
+		for !c.closed {
+			c.cond.Wait()
+		}
+		return 0, net.ErrClosed
+	}
 	n := ev.accept
 	if n > len(p) {
 		n = len(p)
@@ -318,6 +325,10 @@ func fmtWrites(tag string, evs []writeEv) string {
 	var sb strings.Builder
 	fmt.Fprintf(&sb, "%s %d", tag, len(evs))
 	for _, e := range evs {
+		if e.block {
+			sb.WriteString(" b 0")
+			continue
+		}
 		fmt.Fprintf(&sb, " %d %s", e.accept, b2s(e.err))
 	}
 	return sb.String()
@@ -345,8 +356,12 @@ func parseWrites(toks []string, i int) ([]writeEv, int) {
 	i += 2
 	var evs []writeEv
 	for j := 0; j < n; j++ {
-		a, _ := strconv.Atoi(toks[i])
-		evs = append(evs, writeEv{accept: a, err: toks[i+1] == "1"})
+		if toks[i] == "b" {
+			evs = append(evs, writeEv{block: true})
+		} else {
+			a, _ := strconv.Atoi(toks[i])
+			evs = append(evs, writeEv{accept: a, err: toks[i+1] == "1"})
+		}
 		i += 2
 	}
 	return evs, i
@@ -487,6 +502,25 @@ func gen(out *vc.Out, r *vc.Rand, thorough bool) {
 		}
 		execCase(out, "copy lim - "+fmtReads("rd", rd, false)+" "+fmtWrites("wr", nil))
 		out.Count("copy:ctx-check")
+	}
+	// --- bridge under back-pressure: one end is alive but not reading (its Write blocks) while the other direction
+	// fails or finishes; closing the bridge must still go through, Start must return, the tunnel must be forgotten
+	for i := 0; i < 6; i++ {
+		d1, d2, d3 := genData(r, 10+i), genData(r, 20), genData(r, 30)
+		blk := []writeEv{{block: true}}
+		hold := readEv{data: nil, err: "n", after: 1 << 40}
+		switch i % 3 {
+		case 0: // target->source blocked on the source; the target then refuses a write of the source->target direction
+			execCase(out, "bridge lim - "+fmtReads("src", []readEv{{data: d1, err: "n"}, {data: d2, err: "n", after: 0}, hold}, true)+" "+
+				fmtReads("tgt", []readEv{{data: d3, err: "n"}, hold}, true)+" "+fmtWrites("sw", blk)+" "+fmtWrites("tw", []writeEv{{accept: 1 << 20}, {accept: 0, err: true}}))
+		case 1: // source->target blocked on the target; the source then ends
+			execCase(out, "bridge lim - "+fmtReads("src", []readEv{{data: d1, err: "n"}, hold}, true)+" "+
+				fmtReads("tgt", []readEv{{data: d3, err: "f"}}, true)+" "+fmtWrites("sw", nil)+" "+fmtWrites("tw", blk))
+		default: // both directions blocked on write... nothing can close the bridge: only the prefix property is asked; skipped
+			execCase(out, "bridge lim - "+fmtReads("src", []readEv{{data: d1, err: "n"}, {data: d2, err: "f"}}, true)+" "+
+				fmtReads("tgt", []readEv{{data: d3, err: "n"}, hold}, true)+" "+fmtWrites("sw", blk)+" "+fmtWrites("tw", nil))
+		}
+		out.Count("bridge:back-pressure")
 	}
 	// --- bridge: both directions concurrently, real lifecycle
 	brounds := 60
